@@ -15,7 +15,7 @@ from ..core import Failure
 from ..model import MP, mp_close
 
 ID = "C13"
-BUDGET = {"quick": 2000, "thorough": 4000}
+BUDGET = {"quick": 2000, "thorough": 10000}
 TECHNIQUE = ("Hypothesis-generated polynomial arrays x pickle protocols / copy flavours / savetxt settings / path-or-"
              "file-object kinds: round-trip oracle (byte snapshots for pickle/copy, values to format precision for text) "
              "and a differential with numpy.loadtxt for header-less files")
